@@ -23,7 +23,9 @@ CONFIG = {
                   "Where the inclusion is FALSE (upper-case [V..] IP literals, unvalidated prefixed names / GTriG IRIREFs / "
                   "RDF-XML qualified names, rdf:nodeID with trailing or double dots, Turtle-family object labels with a "
                   "trailing dot) the full statement is refuted by a kernel-checked witness and reported as a finding with "
-                  "the witness document. Exploration-strength support ONLY (no proof) for the rest of the property: "
+                  "the witness document. rio/src/parser.rs error mapping: a small model (scripted back-end, failing callback), proved "
+                  "never to panic and to surface back-end errors as SourceError, tied to the three real Source wrappers by "
+                  "a differential with scripted rio_api parsers. Exploration-strength support ONLY (no proof) for the rest of the property: "
                   "termination, panic-freedom and stack use of the third-party parsers (rio_turtle, rio_xml/quick-xml, "
                   "json-ld/json-syntax/iref) on arbitrary bytes is checked on a mutation corpus (every single-byte "
                   "deletion / insertion / flip / truncation of valid documents per syntax, invalid UTF-8, structural "
@@ -43,7 +45,8 @@ CONFIG = {
                  "oxiri_abs_sub_validator_refuted", "oxiri_ref_sub_validator_refuted",
                  "gtrig_iri_sub_validator_refuted", "ttl_pname_sub_validator_refuted",
                  "xml_qname_sub_validator_refuted", "xml_nodeid_sub_validator_refuted",
-                 "xml_nodeid_sub_validator_partial", "ttl_bnode_obj_sub_validator_refuted"],
+                 "xml_nodeid_sub_validator_partial", "ttl_bnode_obj_sub_validator_refuted",
+                 "glue_no_unwrap", "glue_source_error", "glue_end"],
     "native_ok": ["rio_bnode_sub_validator", "rio_var_sub_validator", "rio_lang_sub_validator",
                   "jsonld_bnode_sub_validator", "base_unwrap_safe", "oxiri_abs_sub_validator_partial",
                   "oxiri_ref_sub_validator_partial", "xml_nodeid_sub_validator_partial"],
@@ -55,6 +58,8 @@ CONFIG = {
             "percent escapes, non-ASCII labels and tags); each driven through the smallest document isolating the "
             "recogniser, rotating over the syntaxes that share it. trail: label/variable followed by '.'+non-name "
             "non-ASCII character. base: Iri::new-accepted strings as configured base of Turtle/TriG/GTriG/RDF-XML parsers. "
+            "glue: every script of <=3 parse_step calls over {0,1,2 items} x {ok, parser error} with the callback failing at "
+            "each item (sampled in quick), through StrictRioTripleSource / StrictRioQuadSource / GeneralizedRioSource. "
             "doc (exploration, no model): 19 valid seed documents over 8 syntaxes; every truncation, every single-byte "
             "deletion, per position random insertion (syntax characters of all formats, UTF-8 fragments valid and invalid) "
             "and bit flip / byte replacement, chunk deletion/duplication/reversal, cross-syntax input, random bytes; "
